@@ -8,7 +8,7 @@ trap 'rm -rf "$S"' EXIT
 rsync -a --exclude .git --exclude __pycache__ --exclude logs /repo/ "$S"/
 cd "$S"
 PYTHONPATH="$S/src" /venv/bin/python "$D/demo.py" "$S" >/dev/null 2>&1; echo "demo on unchanged: exit $? (want 0)"
-if ! patch -p1 -s --fuzz=3 < "$D/patch.diff"; then echo "PATCH DOES NOT APPLY to current /repo"; exit 2; fi
+if ! git apply --whitespace=nowarn "$D/patch.diff"; then echo "PATCH DOES NOT APPLY to current /repo"; exit 2; fi
 T=$(PYTHONPATH="$S/src" /venv/bin/python -m pytest -q -p no:cacheprovider 2>&1 | tail -1); echo "tests with change: $T (want 3 failed, 129 passed)"
 PYTHONPATH="$S/src" /venv/bin/python "$D/demo.py" "$S" > "$S/.demo.out" 2>&1; echo "demo with change: exit $? (want 1): $(tail -2 "$S/.demo.out" | tr '\n' ' ' | cut -c1-200)"
 rm -rf "$S/logs"
